@@ -222,6 +222,23 @@ func (c *Chain) Exec(o Op) (string, string) {
 	case "END":
 		r, _ := c.EndBlock() // the caller commits after observing the state
 		return r, ""
+	case "SPRM":
+		// a parameter update is a governance action, not a user transaction: the module's own handler, under the governance authority,
+		// on the state of the block being executed
+		msg := &subtypes.MsgUpdateParams{Authority: authtypes.NewModuleAddress(govtypes.ModuleName).String(),
+			Params: subtypes.Params{WagerEnabled: o.Status != 0, DepositEnabled: o.Mode != 0}}
+		h := c.App.MsgServiceRouter().Handler(msg)
+		if h == nil {
+			return "err", "no handler"
+		}
+		ctx, write := c.Ctx().CacheContext()
+		if _, err := h(ctx, msg); err != nil {
+			return "err", err.Error()
+		}
+		if !c.SimOnly { // a simulation (mempool check) leaves no trace
+			write()
+		}
+		return "ok", ""
 	}
 	var msg sdk.Msg
 	signer := int(o.Signer)
